@@ -103,3 +103,133 @@ def check_C02(replay=None):
     for t in traces:
         os.remove(t)
     return chk.finish()
+
+
+# --------------------------------------------------------------------------------------------
+# C01 / C04  assembler: image and verdict
+# --------------------------------------------------------------------------------------------
+
+def _asm_key(ev):
+    kinds = [it["k"] for it in ev["ast"]]
+    focus = [k for k in kinds if k not in ("add",)] or kinds
+    what = ev["res"] + (":" + ev["stage"] if ev.get("stage") else "")
+    if ev["res"] == "panic":
+        what += ":" + ev["msg"].split(" @ ")[0][:50]
+    if ev["fam"] in ("fields", "verdict", "labels"):
+        return "%s:%s:%s" % (ev["fam"], "+".join(sorted(set(focus)))[:40], what)
+    return "%s:%s" % (ev["fam"], what)
+
+
+def _asm_jobs_run(chk, jobs, spec="Trace_Asm"):
+    """jobs: list of (name, harness-args). Generates and validates each; returns traces."""
+    def gen(job):
+        name, args = job
+        out = _wpath("%s_%s.ndjson" % (chk.pid.lower(), name))
+        summ = harness(["gen", "asm"] + args + ["--out", out])
+        res = tlc_trace(spec, out)
+        return out, summ, res
+    results = parallel(gen, jobs, 8)
+    traces = []
+    for out, summ, res in results:
+        traces.append(out)
+        chk.add_trace(res, res["nrec"])
+        chk.evaluations += res["nrec"]
+        chk.extra["layout_mismatch"] = chk.extra.get("layout_mismatch", 0) + summ.get("layout_mismatch", 0)
+        if res["consumed"] != res["nrec"]:
+            raise vlib.ToolError("%s consumed %s of %s events of %s" % (spec, res["consumed"], res["nrec"], out))
+        if res["bad"]:
+            evs = read_events(out, res["bad"])
+            for i in sorted(res["bad"]):
+                e = evs[i]
+                chk.violation(_asm_key(e), "assembler output not explained by Assembler.tla: res=%s stage=%s words=%s src=%r" %
+                              (e["res"], e.get("stage"), e["words"][:8], e["src"][:120]),
+                              {"family": "asm", "events": [e]})
+        if summ.get("layout_mismatch"):
+            chk.violation("layout-changes-image", "two layouts of the same tree assembled to different images", {"family": "asm", "events": []})
+    return traces
+
+
+def _asm_replay(chk, replay, spec="Trace_Asm"):
+    case = json.load(open(replay))["case"]
+    cf = _wpath("%s_replay_case.json" % chk.pid.lower())
+    json.dump(case["events"], open(cf, "w"))
+    out = _wpath("%s_replay.ndjson" % chk.pid.lower())
+    harness(["replay", "asm", "--case", cf, "--out", out])
+    res = tlc_trace(spec, out)
+    chk.add_trace(res, res["nrec"])
+    chk.evaluations += res["nrec"]
+    evs = read_events(out, res["bad"])
+    for i in sorted(res["bad"]):
+        e = evs[i]
+        chk.violation(_asm_key(e), "assembler output not explained by Assembler.tla: res=%s words=%s" % (e["res"], e["words"][:8]),
+                      {"family": "asm", "events": [e]})
+    chk.samples = vlib.sample_lines(out, 1)
+    chk.distinct = chk.evaluations
+    return chk.finish()
+
+
+def _slim(ev):
+    return {k: ev[k] for k in ev if k != "ast"} | {"ast_items": len(ev.get("ast", []))}
+
+
+def check_C01(replay=None):
+    chk = Check("C01")
+    chk.rule = ("case = syntax tree rendered to text in a seeded layout (keyword case, separators , : space tab, comments, blank lines, #d/xH/0xH/x-H spellings) "
+                "and assembled by the real pipeline; fields: every instruction form x every register x EVERY in-range value of every field; labels: every PC-relative "
+                "form x label before/after/on the statement at every field boundary; random: multi-label programs in 3 layouts each. Trace_Asm.tla requires "
+                "origin, every word, breakpoints and the symbol table to equal Assembler!Image. distinct = distinct (tree, layout) pairs")
+    chk.assumptions = ["J1: alias literals (x FFFF for -1) may be accepted or rejected", "non-BMP characters are not put into .stringz"]
+    vlib.build()
+    if replay:
+        return _asm_replay(chk, replay)
+    thorough = chk.tier == "thorough"
+    res = tlc_mc("MC_Assembler", "MC_Assembler_deep.cfg" if thorough else "MC_Assembler.cfg", workers=8, coverage=False, timeout=1500)
+    chk.add_mc(res, "MC_Assembler")
+    stride = 1 if thorough else 4
+    nphase = 8 if thorough else 8
+    jobs = []
+    for ph in range(nphase):
+        # phases partition the field sweep: item i goes to phase i % (stride*nphase)
+        jobs.append(("fields%d" % ph, ["--fam", "fields", "--stride", stride * nphase, "--phase", ph * stride + (chk.seed % stride), "--seed", chk.seed,
+                                      "--layouts", 2 if thorough else 1]))
+    jobs.append(("labels", ["--fam", "labels", "--n", 40 if thorough else 6, "--seed", chk.seed, "--layouts", 2]))
+    jobs.append(("labels_ns", ["--fam", "labels", "--n", 4, "--seed", chk.seed + 1, "--layouts", 1, "--stack", 0]))
+    nrand = 1600 if thorough else 160
+    for k in range(4):
+        jobs.append(("random%d" % k, ["--fam", "random", "--n", nrand // 4, "--seed", chk.seed * 7 + k, "--layouts", 3, "--stack", 1 if k < 3 else 0]))
+    traces = _asm_jobs_run(chk, jobs)
+    chk.distinct = chk.evaluations
+    chk.samples = [_slim(e) for e in vlib.sample_lines(traces[-1], 1)] + [_slim(e) for e in vlib.sample_lines(traces[0], 1)]
+    chk.extra["exhaustive"] = False
+    chk.extra["field_sweep_fraction"] = "1/%d" % stride
+    for t in traces:
+        os.remove(t)
+    return chk.finish()
+
+
+def check_C04(replay=None):
+    chk = Check("C04")
+    chk.rule = ("case = program with an operand at / around a field boundary (min-1, min, -1, 0, max, max+1, 16-bit extremes, alias values) in a seeded spelling, "
+                "label distances of exactly +-2^(n-1) and beyond built with .blkw/filler padding, undefined/duplicate/case-differing labels, repeated .orig, "
+                "structural label errors; verdict (Ok/Err) of the real pipeline must equal Assembler!Accepts and accepted images must equal Assembler!Image; "
+                "both feature-flag values. distinct = distinct (tree, layout) pairs")
+    chk.assumptions = ["J1: alias literals may be accepted or rejected (if accepted the field must hold the low bits)",
+                       "CALL takes a label only (README)"]
+    vlib.build()
+    if replay:
+        return _asm_replay(chk, replay)
+    thorough = chk.tier == "thorough"
+    for cfg in (["MC_Assembler.cfg", "MC_Assembler_nostack.cfg"] if not thorough else ["MC_Assembler_deep.cfg", "MC_Assembler_nostack.cfg", "MC_Assembler.cfg"]):
+        res = tlc_mc("MC_Assembler", cfg, workers=8, coverage=False, timeout=1500)
+        chk.add_mc(res, cfg)
+    jobs = []
+    reps = 12 if thorough else 2
+    for k in range(reps):
+        jobs.append(("verdict%d" % k, ["--fam", "verdict", "--n", 30 if thorough else 6, "--seed", chk.seed * 13 + k, "--layouts", 3, "--stack", 1]))
+    jobs.append(("verdict_ns", ["--fam", "verdict", "--n", 4, "--seed", chk.seed, "--layouts", 2, "--stack", 0]))
+    traces = _asm_jobs_run(chk, jobs)
+    chk.distinct = chk.evaluations
+    chk.samples = [_slim(e) for e in vlib.sample_lines(traces[0], 2)]
+    for t in traces:
+        os.remove(t)
+    return chk.finish()
